@@ -704,3 +704,18 @@ m('C18', 'main: --layered default False', MAIN,
 n('C07', 'gradient: scatter target renamed', SIMS,
   "                    grad = np.zeros((3, *shape), order='F')\n",
   "                    grad = np.zeros((3, *shape), order='F')\n                    del_me = 0\n")
+
+# --------------------------------------------------- rules added later (round 2 prep)
+m('C02', 'BaseMesh: x-edges located on cells in y', MESHES,
+  "        self.shape_edges_x = (shape_cells[0], shape_nodes[1], shape_nodes[2])",
+  "        self.shape_edges_x = (shape_cells[0], shape_cells[1], shape_nodes[2])", 'C02.O5')
+m('C04', 'BaseMesh: cell centres shifted', MESHES,
+  "        self.cell_centers_y = (self.nodes_y[1:] + self.nodes_y[:-1])/2",
+  "        self.cell_centers_y = (self.nodes_y[1:] + self.nodes_y[:-1])/2 + 0.0*self.h[1] + self.h[1]*0.01",
+  'C04.W')
+m('C04', 'restriction: coarse grid with a shifted origin', SOLVER,
+  "    cgrid = meshes.BaseMesh(ch, model.grid.origin)",
+  "    cgrid = meshes.BaseMesh(ch, model.grid.origin + 0.5*ch[0][0])", 'C04.M')
+m('C01', 'solve: reference norm from the starting field', SOLVER,
+  "    var.l2_refe = sp.linalg.norm(sfield.field, check_finite=False)",
+  "    var.l2_refe = sp.linalg.norm(sfield.field, check_finite=False) + 1.0", 'C01.R2')
